@@ -81,6 +81,15 @@ def cases(rng, tier, Case):
         if rng.random() < 0.3:
             cfg = cfg.replace("f", "F")
         res.append(Case("parse %s 100 RE %s" % (cfg, hx(d)), "gen", {"src": hx(d), "cfg": cfg}, compare=len(d) < 6000 and d.count("\n") < 300 and d.count("](") < 300))
+    # trees deeper than 256 levels (seed C19-7: a depth guard in the serializer's descent) and raw text that looks like
+    # the end of a void element (seed C19-8: HTML derived from XHTML by text replacement)
+    for k in (130, 150, 300):
+        for d in ("*a _b " * k + "c" + " b_ a*" * k, "- " * 99 + "*a _b " * (k // 2) + "c" + " b_ a*" * (k // 2), "> " * 90 + "**a ~~b " * (k // 2) + "![i](u) <br />" + " b~~ a**" * (k // 2)):
+            res.append(Case("parse CsW 100 RE %s" % hx(d), "deep", {"src": hx(d), "cfg": "CsW"}, compare=False))
+    for d in ("<br />", "a <br /> b", "<img src=\"a.png\" />\n", "<div>\n<hr />\n</div>", "text \" />\" end", "`<br />`", "    <br />", "[l](u \"t />\")", "![a />](u)",
+              "<a href=\"x\" />\n\n***\n\n<input />", "&lt;br /&gt;", "```\n<br />\n```", "<http://x.y/ />", "a  \n<br />  \nb"):
+        for cfg in ("CsW", "WCs", "CsWS", "Cs", "nebmliatcfqhurHLpx"):
+            res.append(Case("parse %s 100 RE %s" % (cfg, hx(d)), "voidlike", {"src": hx(d), "cfg": cfg}))
     return res
 
 
